@@ -271,6 +271,25 @@ CHECKS['C18'] = dict(
     note=COMMON_NOTE + 'HDF5 storage of chunks/filters and sidpy\'s copy_attributes / copy_linked_objects are modelled by their observable effect (attribute names, link targets) and checked by read-back, not verified.',
     ref='§5 C18')
 
+CHECKS['C19'] = dict(
+    technique='Lean 4 theorems over an N-D array / ancillary-matrix / output-path model of the three translators + differential correspondence with raw h5py coordinate maps',
+    text=('Theorems (Usid/Properties/C19.lean): LABELLED DATASETS - for every array, every list of axes (any number, any '
+          'typing and ordering of spatial and other axes, any sizes and values) and every element index, the element sits '
+          'at (row, column) = (flat index of its spatial sub-index, flat index of the rest) and at that row / column the '
+          'ancillaries carry the name, unit, index and value of every axis (sidpy_coords, built on C08\'s '
+          'written_slowest_first and a mixed-radix digit lemma); a kernel-checked counterexample shows that flattening '
+          'without moving spatial axes to the front (the repaired defect D12) misplaces elements. IMAGES - for every H x W '
+          'and every pixel (y, x): row x*H+y of the (W*H, 1) matrix holds it and the stored position indices there are '
+          '(X=x, Y=y). ARRAYS - the translator accepts exactly the inputs satisfying an independently stated validity '
+          'predicate, rejects all others leaving the output path (empty or holding an earlier file) unchanged, and a '
+          'valid input yields the standard layout with parameters, data and extra datasets verbatim and ancillaries '
+          'whose coordinates follow from C08. Correspondence: real ArrayTranslator (numpy/dask, parameter dicts, extras, '
+          '13 kinds of invalid input, pre-existing output), ImageTranslator (PNG/txt images 1-6 x 1-6, binning, '
+          'normalisation, existing output) and write_sidpy_dataset (rank 1-4, every typing of axes); files read back '
+          'with raw h5py into coordinate maps and compared with the input and with the model\'s matrices.'),
+    note=COMMON_NOTE + 'PIL decoding/resampling and the normalisation arithmetic are runtime behaviour: for binned / normalised images the processed image is recomputed with PIL in the harness and only its placement is checked; dask scheduling and HDF5 storage are not modelled.',
+    ref='§5 C19')
+
 REASON_PENDING = 'check not built yet in this round (planned: Lean model + theorems + correspondence, see DESIGN.md §5)'
 
 
